@@ -98,6 +98,25 @@ def eval_inv(ex, inv, st, extra):
     return out
 
 
+def bind_heads(st, body):
+    """head_<name>: value of a body-modified variable at the head of the current iteration (for hints about one step)"""
+    rebound, mutated, called = modified(body)
+    for nm in rebound | mutated:
+        if nm in st.env:
+            v = st.env[nm]
+            st.env['head_' + nm] = st.alloc(st.deref(v)) if isinstance(v, Ref) else v
+
+
+def apply_inv_hints(ex, inv, s, extra):
+    """hint(...) clauses of an invariant: lemma instances about the step just executed (assumed before the preservation obligations)"""
+    for cl in inv.of('hint'):
+        for a in cl.args:
+            loc = State(dict(s.env, **extra), s.heap, s.ver, s.pc, s.ghost)
+            f = ex.truth(ex.evs(a, loc), loc)
+            s.heap.update({k2: v2 for k2, v2 in loc.heap.items() if k2 not in s.heap})
+            s.assume(f)
+
+
 def oblige_inv(ex, st, kind, k, clauses, t, what):
     """one obligation per invariant clause; clause m may use clauses < m (each has its own obligation)"""
     base = list(st.pc)
@@ -196,6 +215,7 @@ def exec_while(ex, t, st):
     hv.side = []
     b = hv.fork()
     b.assume(c)
+    bind_heads(b, t.body)
     dec0 = None
     if inv.of('decreases'):
         loc = State(b.env, b.heap, b.ver, b.pc, b.ghost)
@@ -203,6 +223,7 @@ def exec_while(ex, t, st):
     exits = []
     for (s, kind, v) in ex.exec_block(t.body, b):
         if kind in ('next', 'continue'):
+            apply_inv_hints(ex, inv, s, {})
             oblige_inv(ex, s, 'inv-preserved', k, eval_inv(ex, inv, s, {}), t, 'preserved')
             if dec0 is not None:
                 loc = State(s.env, s.heap, s.ver, s.pc, s.ghost)
@@ -305,6 +326,7 @@ def exec_for(ex, t, st):
             hv.assume(g)
         b = hv.fork()
         b.assume(kk < Z(n))
+        bind_heads(b, t.body)
         ex.bind_target(t.target, get(kk), b)
         if isinstance(t.target, ast.Name) and isinstance(itv, Ref) and isinstance(b.env.get(t.target.id), Ref):
             root = itv.root if itv.origin == 'alias' and itv.root is not None else itv.oid
@@ -314,6 +336,7 @@ def exec_for(ex, t, st):
         exits = []
         for (s, kd, v) in ex.exec_block(t.body, b):
             if kd in ('next', 'continue'):
+                apply_inv_hints(ex, inv, s, {})
                 oblige_inv(ex, s, 'inv-preserved', k, eval_inv(ex, inv, s, {'_k': kk + 1, '_k%d' % k: kk + 1}), t, 'preserved')
             elif kd == 'break':
                 exits.append((s, 'next', None))
@@ -343,11 +366,13 @@ def exec_for(ex, t, st):
     b = hv.fork()
     x = fresh_value(S.elem, '_x')
     b.assume(S.member(x)); b.assume(NOT(D.member(x)))
+    bind_heads(b, t.body)
     ex.bind_target(t.target, x, b)
     exits = []
     for (s, kd, v) in ex.exec_block(t.body, b):
         if kd in ('next', 'continue'):
             D2 = SSet(lambda y, D=D, x=x: OR(D.member(y), EQ(y, x)), S.elem)
+            apply_inv_hints(ex, inv, s, {})
             d2r = s.alloc(D2)
             oblige_inv(ex, s, 'inv-preserved', k, eval_inv(ex, inv, s, {'_done': d2r, '_done%d' % k: d2r}), t, 'preserved')
         elif kd == 'break':
